@@ -131,17 +131,28 @@ def random_real_predicates(seed: int, count: int) -> dict:
     return res
 
 
+def sample_matrices(seed: int, count: int) -> list:
+    """Seeded sample of integer matrices with larger entries (2..4 rows, 2..3 columns, entries up to 6)."""
+    rng = random.Random(seed * 2221 + 9)
+    mats, seen = [], set()
+    while len(mats) < count:
+        m, n, e = rng.choice([2, 3, 3, 3, 4]), rng.choice([2, 3]), rng.choice([3, 4, 6])
+        J = [[rng.randint(-e, e) for _ in range(n)] for _ in range(m)]
+        k = tuple(map(tuple, J))
+        if k not in seen:
+            seen.add(k)
+            mats.append(J)
+    return mats
+
+
 def random_episodes(seed: int, count: int) -> list[dict]:
-    """Code -> spec: MGDA(epsilon=0, max_iters=K) on random integer matrices.  K = 1 on larger
-    entries, K = 2 inside the families whose arithmetic fits TLC's integers."""
+    """Code -> spec: MGDA(epsilon=0, max_iters=K) on random integer matrices, K in 1..3 (the trace
+    specification skips an episode whose K iterations do not fit its integers)."""
     rng = random.Random(seed * 6151 + 3)
     eps = []
     for k in range(count):
-        if k % 2 == 0:
-            K, m, n, e = 1, rng.choice([2, 3, 4, 5]), rng.choice([2, 3, 4]), 4
-        else:
-            K = 2
-            m, n, e = rng.choice([(2, 2, 3), (2, 3, 2), (3, 2, 2), (3, 2, 2), (4, 2, 1)])
+        K = rng.choice([1, 2, 2, 3])
+        m, n, e = rng.choice([2, 3, 3, 4, 5]), rng.choice([2, 3, 4]), rng.choice([1, 2, 4, 6])
         J = [[rng.randint(-e, e) for _ in range(n)] for _ in range(m)]
         ex = rng.choice([-20, 0, 0, 20])
         ep = {"ep": k + 1, "J": J, "K": K, "out": [], "exp": ex}
